@@ -428,8 +428,17 @@ func collectTVarBlockFacade(b Block) []string {
 	return collectTVarBlock(collE, collS, b)
 }
 
-func transTVFTypeWithSet(visited SSet, transTV func(TypeVar) FType, ftp FType) FType {
-	recurse := (func(_r0 FType) FType { return transTVFTypeWithSet(visited, transTV, _r0) })
+type TransMemo struct {
+	Visiting SSet
+	Done     dict.Dict[string, FType]
+}
+
+func newTransMemo() TransMemo {
+	return TransMemo{Visiting: NewSSet(), Done: dict.New[string, FType]()}
+}
+
+func transTVFTypeWithSet(memo TransMemo, transTV func(TypeVar) FType, ftp FType) FType {
+	recurse := (func(_r0 FType) FType { return transTVFTypeWithSet(memo, transTV, _r0) })
 	switch _v17 := (ftp).(type) {
 	case FType_FTypeVar:
 		tv := _v17.Value
@@ -456,39 +465,53 @@ func transTVFTypeWithSet(visited SSet, transTV func(TypeVar) FType, ftp FType) F
 	case FType_FRecord:
 		rt := _v17.Value
 		rkey := rtToKey(rt)
-		return frt.IfElse(SSetHasKey(visited, rkey), (func() FType {
-			return ftp
+		memoed, ok := frt.Destr2(dict.TryFind(memo.Done, rkey))
+		return frt.IfElse(ok, (func() FType {
+			return memoed
 		}), (func() FType {
-			SSetPut(visited, rkey)
-			nrt := transRecType(recurse, rt)
-			SSetRemove(visited, rkey)
-			return New_FType_FRecord(nrt)
+			return frt.IfElse(SSetHasKey(memo.Visiting, rkey), (func() FType {
+				return ftp
+			}), (func() FType {
+				SSetPut(memo.Visiting, rkey)
+				nrt := transRecType(recurse, rt)
+				SSetRemove(memo.Visiting, rkey)
+				res := New_FType_FRecord(nrt)
+				dict.Add(memo.Done, rkey, res)
+				return res
+			}))
 		}))
 	case FType_FUnion:
 		ut := _v17.Value
 		uname := uniToKey(ut)
-		return frt.IfElse(SSetHasKey(visited, uname), (func() FType {
-			return ftp
+		memoed, ok := frt.Destr2(dict.TryFind(memo.Done, uname))
+		return frt.IfElse(ok, (func() FType {
+			return memoed
 		}), (func() FType {
-			SSetPut(visited, uname)
-			cases := utCases(ut)
-			ntps := frt.Pipe(slice.Map(func(_v1 NameTypePair) FType {
-				return _v1.Ftype
-			}, cases), (func(_r0 []FType) []FType { return slice.Map(recurse, _r0) }))
-			names := slice.Map(func(_v2 NameTypePair) string {
-				return _v2.Name
-			}, cases)
-			ncases := frt.Pipe(slice.Zip(names, ntps), (func(_r0 []frt.Tuple2[string, FType]) []NameTypePair {
-				return slice.Map(func(tp frt.Tuple2[string, FType]) NameTypePair {
-					return newNTPair(frt.Fst(tp), frt.Snd(tp))
-				}, _r0)
+			return frt.IfElse(SSetHasKey(memo.Visiting, uname), (func() FType {
+				return ftp
+			}), (func() FType {
+				SSetPut(memo.Visiting, uname)
+				cases := utCases(ut)
+				ntps := frt.Pipe(slice.Map(func(_v1 NameTypePair) FType {
+					return _v1.Ftype
+				}, cases), (func(_r0 []FType) []FType { return slice.Map(recurse, _r0) }))
+				names := slice.Map(func(_v2 NameTypePair) string {
+					return _v2.Name
+				}, cases)
+				ncases := frt.Pipe(slice.Zip(names, ntps), (func(_r0 []frt.Tuple2[string, FType]) []NameTypePair {
+					return slice.Map(func(tp frt.Tuple2[string, FType]) NameTypePair {
+						return newNTPair(frt.Fst(tp), frt.Snd(tp))
+					}, _r0)
+				}))
+				ntargs := slice.Map(recurse, ut.Targs)
+				nut := UnionType{Name: ut.Name, Targs: ntargs}
+				nui := UnionTypeInfo{Cases: ncases}
+				updateUniInfo(nut, nui)
+				SSetRemove(memo.Visiting, uname)
+				res := New_FType_FUnion(nut)
+				dict.Add(memo.Done, uname, res)
+				return res
 			}))
-			ntargs := slice.Map(recurse, ut.Targs)
-			nut := UnionType{Name: ut.Name, Targs: ntargs}
-			nui := UnionTypeInfo{Cases: ncases}
-			updateUniInfo(nut, nui)
-			SSetRemove(visited, uname)
-			return New_FType_FUnion(nut)
 		}))
 	default:
 		return ftp
@@ -496,8 +519,8 @@ func transTVFTypeWithSet(visited SSet, transTV func(TypeVar) FType, ftp FType) F
 }
 
 func transTVFType(transTV func(TypeVar) FType, ftp FType) FType {
-	visited := NewSSet()
-	return transTVFTypeWithSet(visited, transTV, ftp)
+	memo := newTransMemo()
+	return transTVFTypeWithSet(memo, transTV, ftp)
 }
 
 func transTVVar(transTV func(TypeVar) FType, v Var) Var {
